@@ -374,6 +374,59 @@ def check_key(crate, rep, cfg):
             else:
                 rep.bad("C15.KEYNUM", key, f.where(bb, idx), what + " — VIOLATED: unguarded sign-changing cast makes negative keys alias large unsigned ones")
     rep.floor("C15.KEYNUM", "signed→unsigned casts in KeyNumber Eq/Ord/Hash [%s]" % cfg, n_casts, 5)
+    # Hash agrees with Eq across the two representations: whatever the Signed arm feeds the hasher for a value that may be non-negative,
+    # the Unsigned arm feeds too (same sequence of (type, constant) writes) — equal keys of different width hash alike
+    h = crate.one("<value::key::KeyNumber as std::hash::Hash>::hash")
+    from engine import EdgeFacts
+    from props.c02 import const_of
+    from props.c09 import variant_switches
+    hef = EdgeFacts(h, crate)
+    arms = {}
+    for sb, listed in variant_switches(h, crate, "key::KeyNumber"):
+        for v, tgt in listed.items():
+            arms[v] = {x for x in h.reach_from(tgt, removed_blocks=frozenset([sb])) if h.dominates(tgt, x)}
+    if set(arms) != {"Signed", "Unsigned"}:
+        rep.anchor_missing("C15.KEYNUM", "Signed/Unsigned arms of <KeyNumber as Hash>::hash")
+        return
+    neg_only = set()
+    for sb in sorted(h.reachable):
+        if h.term(sb)["k"] != "switch":
+            continue
+        for tgt, facts in hef.facts_for_switch(sb).items():
+            for fa in facts:
+                if fa[0] == "cmp" and fa[1] == "Lt" and fa[3] == ("const", "0") and fa[4] is True and len(h.pred[tgt]) == 1:
+                    neg_only |= {x for x in h.reach_from(tgt) if h.dominates(tgt, x)}
+
+    def sig(t):
+        st = t["f"].get("self_ty") or (t["atys"][0] if t["atys"] else "?")
+        c = const_of(h, t["args"][0])
+        return (st.lstrip("&"), (c or {}).get("pv", (c or {}).get("v")) if c else None)
+
+    def sequences(region, skip):
+        """hasher-write signatures along each path of the arm (the arms are loop-free)"""
+        hb = {bb: sig(t) for bb, t in h.calls(sorted(region)) if callee_def(t).endswith("hash::Hash::hash") and bb not in skip}
+        out = set()
+
+        def walk(bb, acc, depth):
+            if depth > 64:
+                return
+            acc2 = acc + ((hb[bb],) if bb in hb else ())
+            nxt = [x for x in h.succ[bb] if x in region and x not in skip]
+            if not nxt:
+                out.add(acc2)
+            for x in nxt:
+                walk(x, acc2, depth + 1)
+        starts = [x for x in region if not any(p in region for p in h.pred[x])]
+        for s0 in starts:
+            if s0 not in skip:
+                walk(s0, (), 0)
+        return {q for q in out if q}
+    s_nonneg = sequences(arms["Signed"], neg_only)
+    s_unsigned = sequences(arms["Unsigned"], set())
+    ok = bool(s_nonneg) and s_nonneg == s_unsigned
+    rep.add("C15.KEYNUM", "C15.KEYNUM:hash-agrees-across-widths", ok, h.where(0), "outside the `v < 0` branch the Signed arm of KeyNumber's Hash writes the same (type, tag) sequence(s) "
+            "as the Unsigned arm: %s" % sorted(s_unsigned) + ("" if ok else " — VIOLATED: Signed (possibly non-negative) writes %s: equal keys stored with different widths hash "
+                                                               "differently (map lookups miss, equal maps compare unequal)" % sorted(s_nonneg)))
 
 
 def places_of(s):
